@@ -870,14 +870,17 @@ class PlaceHolder:
         result = self._result(result)
         if self._timestamps[0] is not None:
             result.time(self._timestamps[0])
-        result.tags(self._tags, set())
+        # Tags that are already current stay current afterwards: only add,
+        # and later remove, the ones this placeholder brings along.
+        new_tags = self._tags - frozenset(result.current_tags)
+        result.tags(new_tags, set())
         result.startTest(self)
         if self._timestamps[1] is not None:
             result.time(self._timestamps[1])
         outcome = getattr(result, self._outcome)
         outcome(self, details=self._details)
         result.stopTest(self)
-        result.tags(set(), self._tags)
+        result.tags(set(), new_tags)
 
     def shortDescription(self):
         if self._short_description is None:
